@@ -57,7 +57,10 @@ def run(tier, seed, repo):
 
     # 1. PEP 440 -> semver -> PEP 440 is the (normalised) original; semver -> PEP 440 -> semver likewise
     f1, f2, n = [], [], 0
-    for rel in rels:
+    # (the round trips are also run on release tuples of one, two and four components - `1`, `1.2`, `1.2.0.1`: the
+    # statement speaks of the normalised original, whatever its length; the classification below stays on three)
+    short = [".".join(map(str, t)) for k in (1, 2, 4) for t in itertools.product(range(B + 1), repeat=k)]
+    for rel in rels + short:
         for pre in pres:
             pep = rel if pre is None else f"{rel}{pre[0]}{pre[1]}"
             sem = rel if pre is None else f"{rel}-{pre[0]}.{pre[1]}"
@@ -118,8 +121,9 @@ def run(tier, seed, repo):
                       {"function": "dev_cli.versioning.detect_change_type", "backend": "bounded"}],
         "assumptions": [f"BOUNDED, not proved: complete enumeration of releases with components 0..{B} and pre-releases "
                         f"a/b/rc 0..{B} ({len(rels) * len(pres)} versions; pairs sampled 1 in {step} for the "
-                        "classification in the quick tier); versions with epochs, post/dev/local parts, more than three "
-                        "release components or multi-digit components are outside the bound",
+                        "classification in the quick tier; the two round trips additionally on every release tuple of "
+                        "one, two and four components over the same range); versions with epochs, post/dev/local "
+                        "parts, more than four release components or multi-digit components are outside the bound",
                         "packaging.version.Version's ordering is the reference for 'greater'"],
         "coverage_extra": {"bounded_not_proved": [f"all three contracts: enumeration bound B={B}"], "exhaustive": tier == "thorough"},
     }
